@@ -12,6 +12,7 @@ import (
 func Register() {
 	rig.SubCommands["gmsref"] = gmsRefMain
 	rig.SubCommands["c26case"] = c26CaseMain
+	rig.SubCommands["c36case"] = c36CaseMain
 	rig.Register(&rig.Spec{Prop: "C26", Level: "exploration", Stages: []rig.Stage{
 		{Name: "differential", Fn: c26, TimeoutQuick: 20 * time.Minute, TimeoutThorough: 6 * time.Hour},
 	}})
